@@ -22,6 +22,47 @@ def grid_sample(rng, k, unit=UNIT):
     return [(B, T, unit) for B, T in rng.sample(core.grid_schemes(), k)]
 
 
+def eleven_plus_dataset(rng):
+    """11-12 elements (two-digit internal ids), near-unanimous rankings so that the exact solvers answer at once"""
+    n = rng.randint(11, 12)
+    base = rng.sample(range(1, n + 1), n)
+    D = []
+    for _ in range(rng.randint(2, 4)):
+        r = [[e] for e in base]
+        for _ in range(rng.randint(0, 2)):
+            j = rng.randrange(n - 1)
+            if rng.random() < .5 and len(r) > j + 1:
+                r[j], r[j + 1] = r[j + 1], r[j]
+            elif len(r) > j + 1:
+                r[j:j + 2] = [sorted(r[j] + r[j + 1])]
+        D.append(r)
+    return D
+
+
+def many_rankings_dataset(rng, m=None, complete=None):
+    """2-4 elements, 257-320 rankings (thresholds such as 256 only show with that many rankings)"""
+    n = rng.randint(2, 4)
+    m = m or rng.randint(257, 320)
+    complete = rng.random() < .5 if complete is None else complete
+    base = [random_dataset(rng, n, 1, nmin=n)[0] for _ in range(4)]
+    if complete:
+        base = [r for r in base if len(grids.dom(r)) == n] or [[[e] for e in range(1, n + 1)]]
+    D = [base[rng.randrange(len(base))] for _ in range(m)]
+    if not complete:
+        D[rng.randrange(m)] = [[1]]
+    U = grids.universe(D)
+    ren = {e: k + 1 for k, e in enumerate(U)}
+    return [[sorted(ren[e] for e in b) for b in r] for r in D]
+
+
+def larger_dataset(rng, nmax=12, mmax=40):
+    """beyond the small scope: up to 12 elements and 40 rankings (long tie runs, many duplicates)"""
+    D = random_dataset(rng, nmax, mmax, nmin=6)
+    if rng.random() < .5:
+        D = D + [D[rng.randrange(len(D))] for _ in range(rng.randint(1, 12))]
+    return D
+
+
 def random_dataset(rng, nmax=8, mmax=6, nmin=1):
     n = rng.randint(nmin, nmax)
     m = rng.randint(1, mmax)
@@ -90,7 +131,7 @@ def cases(datasets, configs, schemes, flags=(1, 0), namings=("ints", "letters"),
                         continue        # documented IncompatibleArgumentsException
                     for ks in kseeds:
                         out.append({"D": D, "naming": namings[(k // 2 + ci) % len(namings)], "sch": list(s),
-                                    "cfg": cfg, "flag": f, "env": e, "kseed": ks + k})
+                                    "cfg": cfg, "flag": f, "env": e, "kseed": ks + k, "entry": (k + ci) % 6})
     return out
 
 
@@ -175,13 +216,16 @@ def reuse_mutate_cases(dss, configs, schemes, rng, flags=(1,), every=None, env="
             if len(U) >= 2:
                 ops.append({"op": "remove_elements", "S": [U[(k + ci) % len(U)]]})
             ops.append({"op": "remove_rate", "p": 1, "q": 2})
-            for op in (ops if all_ops else [ops[(k + ci) % len(ops)]]):
+            seqs = [[op] for op in (ops if all_ops else [ops[(k + ci) % len(ops)]])]
+            if k % 4 == 0 and len(ops) >= 2:
+                seqs.append([ops[(k + j) % len(ops)] for j in range(3)])        # three operations in a row
+            for seq in seqs:
                 for f in flags:
                     if cfg == "ExactCplex(opt)" and f == 0:
                         continue
                     out.append({"D": D, "naming": ["ints", "letters"][k % 2],
                                 "sch": list(schemes[(k + ci) % len(schemes)]), "cfg": cfg, "flag": f, "env": e,
-                                "kseed": k, "reuse": {"kind": "mutate", "ops": [op]}})
+                                "kseed": k, "entry": (k + ci) % 4, "reuse": {"kind": "mutate", "ops": seq}})
     return out
 
 
